@@ -2,6 +2,7 @@
 C13 — Block emission is non-increasing, non-negative and fully distributed.
 -/
 import Canine.Mint.Model
+import Canine.Generated.PureFns
 namespace Canine.Mint
 
 theorem chopRoundNat_nonneg (x : Int) (h : 0 ≤ x) : 0 ≤ chopRoundNat x := by
@@ -259,5 +260,22 @@ def defaultParams : Params := { tokensPerBlock := 4200000, mintDecrease := 6, st
 example : validParams defaultParams := by simp [validParams, defaultParams]
 example : (blockMint defaultParams { last := none, supply := 0, stakers := 0, dev := 0, stipend := 0, modBal := 0 })
     = ({ last := some 4199999, supply := 4199999, stakers := 3359999, dev := 335999, stipend := 503999, modBal := 2 }, 4199999) := by decide
+
+/-! ## The emission step as it stands in the source (regenerated tie) -/
+
+/-- `utils.GetMintForBlock`, translated from x/jklmint/utils/mint.go on every run, is the model's
+`nextMint` (with the chain's blocks-per-year constant the division never fails). -/
+theorem C13_generated_emission_step_is_the_model (prev dec : Int) :
+    Generated.Pure.GetMintForBlock prev blocksPerYear dec = some (nextMint prev dec) ∧
+    Generated.Pure.GetMintForBlock_inputs = [] := by
+  refine ⟨?_, rfl⟩
+  unfold Generated.Pure.GetMintForBlock nextMint
+  have hq : ∃ q, Dec.quo? (Dec.ofInt dec) (Dec.ofInt blocksPerYear) = some q := by
+    unfold Dec.quo?
+    have : (Dec.ofInt blocksPerYear).raw ≠ 0 := by decide
+    simp [this]
+  obtain ⟨q, hq⟩ := hq
+  simp only [hq, bind, Option.bind, Option.getD]
+  by_cases h : Dec.trunc (Dec.sub (Dec.ofInt prev) q) < 0 <;> simp [h]
 
 end Canine.Mint
